@@ -18,7 +18,7 @@ use std::cell::RefCell;
 use std::process::Command;
 
 pub fn handles(id: &str) -> bool {
-    matches!(id, "C04" | "C06" | "C10" | "C11" | "C15" | "C16" | "C17" | "C18" | "C20")
+    matches!(id, "C04" | "C06" | "C09" | "C10" | "C11" | "C15" | "C16" | "C17" | "C18" | "C20")
 }
 
 pub fn rule(id: &str) -> String {
@@ -151,6 +151,7 @@ pub fn run(cfg: &RunCfg, stats: &mut Stats, exhaustive: &mut bool, extra: &mut V
     match cfg.id.as_str() {
         "C04" => run_c04(cfg, stats),
         "C06" => run_walks(cfg, stats, 1),
+        "C09" => run_c09_hash_twins(cfg, stats),
         "C10" => run_c10_parsed(cfg, stats),
         "C11" => match run_c11_static(cfg, stats) {
             Outcome::Pass => run_walks(cfg, stats, 1),
@@ -169,6 +170,24 @@ pub fn replay(id: &str, v: &Value) -> Result<Option<Fail>, String> {
     let mut st = Stats::default();
     match (id, v["kind"].as_str().unwrap_or("")) {
         ("C15", "text") => Ok(c15_text_check(v["text"].as_str().ok_or("text")?, &mut st).err()),
+        ("C09", "hash_twins") => {
+            let mk = registry::observer_for("C09").unwrap();
+            let mut obs = mk();
+            for key in ["first", "second"] {
+                let codes: Vec<u8> = v[key].as_array().ok_or("codes")?.iter().filter_map(|x| x.as_u64().map(|y| y as u8)).collect();
+                let mut g = GameState::initial();
+                let mut mo = Model::initial();
+                for &k in codes.iter() {
+                    g = g.take_action(&to_action(m::MAction::Place(k)));
+                    mo.apply(m::MAction::Place(k))?;
+                }
+                let vw = crate::drive::View::new(&g, &mo, false);
+                if let Err(f) = obs.on_state(&vw, &mut st) {
+                    return Ok(Some(f));
+                }
+            }
+            Ok(None)
+        }
         ("C10", "parsed_text") => Ok(c10_parsed_text(v["text"].as_str().ok_or("text")?, &mut st).err()),
         ("C15", "valid_diagram") => match crate::drive::start_from_json(&v["start"])? {
             gen::Start::Pos(p) => Ok(c15_valid_diagram(&p, &mut st).err()),
@@ -582,6 +601,107 @@ fn run_c10_parsed(cfg: &RunCfg, stats: &mut Stats) -> Outcome {
     }
     stats.merge(pref);
     out
+}
+
+
+// =====================================================================================
+// C09: setup states whose position hashes agree in their low or high 32 bits, asked one right after
+// the other. Anything the engine remembers about "the last setup position" under a shortened key
+// answers the second question with the first one's answer. A few hundred thousand random prefixes
+// contain dozens of such pairs (birthday bound), so they are found, not hoped for.
+// =====================================================================================
+
+fn run_c09_hash_twins(cfg: &RunCfg, stats: &mut Stats) -> Outcome {
+    use crate::drive::View;
+    let per_shard = if cfg.thorough { 120_000usize } else { 25_000usize };
+    // 1. random setup prefixes (placement codes), generated in parallel; only take_action is used here
+    let seed = cfg.seed;
+    let chunks: Vec<Vec<(u64, Vec<u8>)>> = std::thread::scope(|sc| {
+        (0..SHARDS)
+            .map(|shard| {
+                sc.spawn(move || {
+                    let mut out = Vec::with_capacity(per_shard);
+                    let mut rng = shard_seed(seed, "C09-twins", 0, shard);
+                    for _ in 0..per_shard {
+                        rng = mix64(rng);
+                        let len = 1 + (rng % 31) as usize;
+                        let mut g = GameState::initial();
+                        let mut mo = Model::initial();
+                        let mut codes = Vec::with_capacity(len);
+                        for _ in 0..len {
+                            rng = mix64(rng);
+                            let offered: Vec<m::MAction> = mo.offered_norep().into_iter().collect();
+                            if offered.is_empty() || !mo.setup {
+                                break;
+                            }
+                            let a = offered[(rng % offered.len() as u64) as usize];
+                            if let m::MAction::Place(k) = a {
+                                codes.push(k);
+                            }
+                            g = g.take_action(&to_action(a));
+                            let _ = mo.apply(a);
+                        }
+                        if mo.setup {
+                            out.push((g.transposition_hash(), codes));
+                        }
+                    }
+                    out
+                })
+            })
+            .collect::<Vec<_>>()
+            .into_iter()
+            .map(|h| h.join().expect("shard"))
+            .collect()
+    });
+    let mut all: Vec<(u64, Vec<u8>)> = chunks.into_iter().flatten().collect();
+    all.sort();
+    all.dedup();
+    // 2. pairs agreeing in the low / high 32 bits but not equal
+    let mut pairs: Vec<(usize, usize)> = vec![];
+    for (shift, mask) in [(0u32, 0xffff_ffffu64), (32u32, 0xffff_ffffu64)] {
+        let mut idx: Vec<usize> = (0..all.len()).collect();
+        idx.sort_by_key(|&i| (all[i].0 >> shift) & mask);
+        for w in idx.windows(2) {
+            let (a, b) = (w[0], w[1]);
+            if (all[a].0 >> shift) & mask == (all[b].0 >> shift) & mask && all[a].0 != all[b].0 {
+                pairs.push((a, b));
+                pairs.push((b, a));
+            }
+        }
+    }
+    stats.add("hash_twins/setup_prefixes", all.len() as u64);
+    stats.add("hash_twins/pairs_agreeing_in_32_bits", (pairs.len() / 2) as u64);
+    // 3. ask the two states of each pair one right after the other (single thread)
+    let build = |codes: &[u8]| -> (GameState, Model) {
+        let mut g = GameState::initial();
+        let mut mo = Model::initial();
+        for &k in codes {
+            g = g.take_action(&to_action(m::MAction::Place(k)));
+            let _ = mo.apply(m::MAction::Place(k));
+        }
+        (g, mo)
+    };
+    let mk = registry::observer_for("C09").unwrap();
+    for (a, b) in pairs.into_iter().take(400) {
+        let (ga, ma) = build(&all[a].1);
+        let (gb, mb) = build(&all[b].1);
+        let mut obs = mk();
+        let r = guard(|| {
+            let va = View::new(&ga, &ma, false);
+            obs.on_state(&va, stats)?;
+            let vb = View::new(&gb, &mb, false);
+            obs.on_state(&vb, stats)
+        });
+        match r {
+            Ok(Ok(())) => {}
+            Ok(Err(f)) => {
+                let fail = Fail::new(&f.clause, format!("(two setup positions whose hashes agree in 32 bits, asked one right after the other: first {:?}, then {:?}) {}", all[a].1, all[b].1, f.detail));
+                return Outcome::Violation(Violation { replay: json!({"property": "C09", "kind": "hash_twins", "clause": fail.clause, "detail": fail.detail, "first": all[a].1, "second": all[b].1}), fail });
+            }
+            Err(p) => return Outcome::Inconclusive(format!("harness panicked in the hash-twin leg: {}", p)),
+        }
+    }
+    Outcome::Pass
 }
 
 // =====================================================================================
